@@ -25,7 +25,8 @@ open Ecal.Drv Ecal.Engine
 /-- bytes as a string, one character per byte (injective; "." and "*" keep their codes) -/
 def hexStr (s : String) : Option String := (hexDecode s).map fun bs => String.ofList (bs.map Char.ofNat)
 
-def listOf (s : String) : List String := if s = "_" then [] else s.splitOn ","
+/-- `_` = empty list, `N` = nil slice / nil map (the same to the model) -/
+def listOf (s : String) : List String := if s = "_" || s = "N" then [] else s.splitOn ","
 
 def splitDots (s : String) : List String := s.splitOn "."
 
@@ -96,6 +97,7 @@ structure EvX where
   ev : Event
   scope : Option (List (List Seg × Bool))
   parent : Option (Nat × Nat)
+  detached : Bool := false     -- added through a fresh instance state: no parent monitor
 
 def parseEvX (s : String) : Option EvX := do
   let ev ← parseEvent s
@@ -105,9 +107,9 @@ def parseEvX (s : String) : Option EvX := do
     let scope ← (if sc = "-" then pure none else (parseScope sc).map some)
     let parent ← (if par = "-" then pure none else
       match par.splitOn "." with
-      | [a, b] => do pure (some ((← a.toNat?), (← b.toNat?)))
+      | a :: b :: _ => do pure (some ((← a.toNat?), (← b.toNat?)))
       | _ => none)
-    pure { ev, scope, parent }
+    pure { ev, scope, parent, detached := (par.splitOn ".").length == 3 }
   | _ => none
 
 inductive SOp where
@@ -157,6 +159,10 @@ def dedupKeys (l : List (String × β)) : List (String × β) :=
 def asIsRule (r : Rule) : Rule :=
   { r with state := r.state.map fun st => dedupKeys (st.map fun kp => (unmark kp.1, kp.2)) }
 def asIsEvent (ev : Event) : Event := { ev with state := ev.state.filter fun kv => !isMarked kv.1 }
+/-- a possible repair: keys compared by their text, a string key first -/
+def byTextEvent (ev : Event) : Event :=
+  { ev with state := ev.state.filter (fun kv => !isMarked kv.1) ++
+                     (ev.state.filter fun kv => isMarked kv.1).map fun kv => (unmark kv.1, kv.2) }
 
 def setNames (l : List String) : String :=
   if l.isEmpty then "_" else ".".intercalate (((l.map hexName).mergeSort (fun a b => a ≤ b)).eraseDups)
@@ -175,10 +181,12 @@ structure Sim where
 def Sim.addStratum (s : Sim) (c : Bool) (n : String) : Sim :=
   if c && !s.strata.contains n then { s with strata := n :: s.strata } else s
 
-/-- `keysAsIs`: non-string keys as the code treats them (else: as distinct keys) -/
-def simulate (rx : Nat → Val → Bool) (keysAsIs : Bool) (ff : Bool) (failing : List Nat)
+/-- `keyMode` 0: non-string keys as the code treats them; 1: kept apart from string keys (the literal
+    reading); 2: compared by text. `detachedGlobal`: an event added by a sink through a fresh instance
+    state starts a new cascade with the global scope, as the code does (else: it stays in its cascade) -/
+def simulate (rx : Nat → Val → Bool) (keyMode : Nat) (detachedGlobal : Bool) (ff : Bool) (failing : List Nat)
     (rules : List Rule) (caseScope : Scope) (evs : List EvX) (ops : List SOp) : Sim :=
-  let rules := if keysAsIs then rules.map asIsRule else rules
+  let rules := if keyMode == 1 then rules else rules.map asIsRule
   ops.foldl (fun (s : Sim) op =>
     -- the failing action belongs to the rule object handed to AddRule: it only exists if that rule was accepted
     let failNames := failing.filterMap fun i =>
@@ -196,7 +204,7 @@ def simulate (rx : Nat → Val → Bool) (keysAsIs : Bool) (ff : Bool) (failing 
       match evs[i]? with
       | none => { s with bad := true }
       | some e =>
-        let ev := if keysAsIs then asIsEvent e.ev else e.ev
+        let ev := if keyMode == 0 then asIsEvent e.ev else if keyMode == 2 then byTextEvent e.ev else e.ev
         let added := match e.parent with
           | none => true
           | some (j, ri) => match rules[ri]?, alookup j s.ran with
@@ -205,7 +213,8 @@ def simulate (rx : Nat → Val → Bool) (keysAsIs : Bool) (ff : Bool) (failing 
         let sc := match e.scope with
           | some defs => Scope.build defs
           | none => match e.parent with
-            | some (j, _) => (alookup j s.scopes).getD caseScope
+            | some (j, _) =>
+              if e.detached && detachedGlobal then Scope.build [([], true)] else (alookup j s.scopes).getD caseScope
             | none => caseScope
         if !added then { s with outs := s.outs ++ [(i, "T*/M_/K*/X_")], ran := (i, []) :: s.ran, scopes := (i, sc) :: s.scopes }
         else
@@ -278,13 +287,29 @@ def runCase (payload : String) : String :=
       let defaultOps := (List.range rules.length).map SOp.rule ++ (List.range evs.length).map SOp.ev
       let ops := match field fs "z" with | some z => (parseSched z).getD defaultOps | none => defaultOps
       let sc := Scope.build defs
-      let base := simulate rx true ff failing rules sc evs ops
+      let base := simulate rx 0 true ff failing rules sc evs ops
       let res := render ecal rules.length evs.length base
       -- a sink whose statematch has a non-string key cannot mean what it says (`createRule` turns the key
-      -- into its text, `Rule.StateMatch` has string keys): the property is kept by refusing the declaration
+      -- into its text, `Rule.StateMatch` has string keys). Outcomes that keep the property: the declaration
+      -- is refused; the keys are kept apart; the keys are compared by text.
       let markedRule := rules.any fun r => (r.state.getD []).any fun kp => isMarked kp.1
-      let specKeys := if markedRule then "ERR-SINK" else res
-      let attrs := if specKeys != res then "\tkf=statematch-nonstring-key\tspec=" ++ specKeys else ""
+      let rend := fun (sim : Sim) => render ecal rules.length evs.length sim
+      let keyAlts := if markedRule then
+          ["ERR-SINK", rend (simulate rx 1 true ff failing rules sc evs ops), rend (simulate rx 2 true ff failing rules sc evs ops)]
+        else []
+      -- `scopematch []` reaches AddRule as a nil slice and is refused; accepting it as "no scope required" is as good
+      let nilScope := ecal && rules.any (·.scopeNil)
+      let scopeAlts := if nilScope then
+          [rend (simulate rx 0 true ff failing (rules.map fun r => { r with scopeNil := false }) sc evs ops)] else []
+      -- an event added by a sink through a fresh instance state (loop, function, addEventAndWait) loses its cascade
+      let detached := evs.any (·.detached)
+      let detAlts := if detached then [rend (simulate rx 0 false ff failing rules sc evs ops)] else []
+      let alts := (keyAlts ++ scopeAlts ++ detAlts).filter (· != res) |>.eraseDups
+      let kf := if (keyAlts.filter (· != res)).length > 0 then "\tkf=statematch-nonstring-key"
+        else if (detAlts.filter (· != res)).length > 0 then "\tkf=scope-lost-in-nested-instance-state" else ""
+      let specs := (List.range alts.length).zip alts |>.map fun (i, a) =>
+        "\tspec" ++ (if i == 0 then "" else toString (i + 1)) ++ "=" ++ a
+      let attrs := kf ++ String.join specs
       let st := if base.strata.isEmpty then "" else "\tst=" ++ ",".intercalate base.strata
       res ++ (if base.strata.contains "kind" then "\tnt=1" else "") ++ st ++ attrs
     | _, _, _, _ => "bad-payload"
